@@ -135,6 +135,16 @@ def gen_history(rng, fam, flavor, length):
         elif r < 0.88 and flavor in ("faults", "dump"):
             ev += rng.choice([["auto0", f"un{rng.randrange(2, 8)}", f"ack{rng.randrange(1, 3)}", f"un{rng.randrange(1, 5)}", "auto1"],
                               ["auto0", f"un{rng.randrange(2, 6)}", "ackall", "auto1", "un3"]])
+        elif r < 0.92 and flavor == "faults":
+            # a List answer abandoned half-way: its Continue messages are stalled by withheld acknowledgements, then the
+            # client is restarted (API reset, or the link is lost); whatever comes next must not use the stale request
+            root = rng.choice(sorted(F.internal))
+            ev += [f"pub:{cp(PREFIX + '/settings' + root)}:e:{cp(RESP)}:{rng.randrange(256):02x}:0:0", "auto0",
+                   f"un{rng.choice([2, 3, 4])}"]
+            ev += rng.choice([["reset"], [rng.choice(["sess0", "sess1"]), "drop"]])
+            ev += ["auto1", f"un{rng.choice([6, 8, 9])}", f"adv{rng.choice([2000, 2600])}", f"un{rng.choice([15, 30])}"]
+            if rng.random() < 0.5:
+                ev += [f"dump:{rng.choice(['-', cp(root)])}", f"un{rng.choice([8, 20])}"]
         elif r < 0.96 and flavor == "faults":
             # after a drop the link stays down until the client has reconnected (TCP, CONNECT, CONNACK)
             ev += [rng.choice(["sess0", "sess1"]), "drop", f"un{rng.choice([5, 6, 9])}"]
